@@ -75,10 +75,11 @@ EndBad ==
                    \cup (IF x.hasHash /\ E.out_hash # x.out_hash THEN {"OutputEqualsReference"} ELSE {})
                    \cup (IF x.hasSum /\ (~Has("sum") \/ E.sum # x.sum) THEN {"ChecksumEqualsReference"} ELSE {})
               ELSE \* split / same: equal status, equal output, equal consumption unless error
+                   \* (the consumed count is only compared when the final status is not an error: after an error the
+                   \* object is dead and how far a fast path had read ahead is unspecified - the property's own carve-out)
                    (IF E.st # x.st THEN {"FinalStatusEqualsOracle"} ELSE {})
-                   \cup (IF x.hasOut /\ x.cls # "err" /\ E.out_total # x.out_total THEN {"FinalOutputEqualsOracle"} ELSE {})
-                   \cup (IF x.hasHash /\ x.cls # "err" /\ E.out_hash # x.out_hash THEN {"FinalOutputEqualsOracle"} ELSE {})
-                   \cup (IF x.hasHash /\ x.cls = "err" /\ Mode = "same" /\ E.out_hash # x.out_hash THEN {"FinalOutputEqualsOracle"} ELSE {})
+                   \cup (IF x.hasOut /\ E.out_total # x.out_total THEN {"FinalOutputEqualsOracle"} ELSE {})
+                   \cup (IF x.hasHash /\ E.out_hash # x.out_hash THEN {"FinalOutputEqualsOracle"} ELSE {})
                    \cup (IF x.cls # "err" /\ E.in_total # x.in_total THEN {"ConsumedEqualsOracleUnlessError"} ELSE {})
                    \cup (IF x.hasSum /\ (~Has("sum") \/ E.sum # x.sum) THEN {"ChecksumEqualsOracle"} ELSE {})
         hs == IF Has("sum_eq_last") /\ ~E.sum_eq_last THEN {"ChecksumIsPure"} ELSE {}
